@@ -217,6 +217,24 @@ def decomposition_facts(o):
     return [valid_ymd(y, m, d), ymd_to_ord(y, m, d) == o]
 
 
+def ord_lex_instance(a, b):
+    """lemma ORD-LEX (proved as a LEMMA obligation from the closed form, see ord_lex_lemma): ordinals are ordered as their
+    (year, month, day) decompositions are ordered lexicographically - instance for the ordinals a, b"""
+    def lt(p, q):
+        return z3.Or(year_of(p) < year_of(q),
+                     z3.And(year_of(p) == year_of(q), month_of(p) < month_of(q)),
+                     z3.And(year_of(p) == year_of(q), month_of(p) == month_of(q), day_of(p) < day_of(q)))
+    return [z3.Implies(a < b, lt(a, b)), z3.Implies(b < a, lt(b, a))]
+
+
+def ord_lex_lemma():
+    """(facts, goal) of ORD-LEX over the closed form: valid (y1,m1,d1) <lex valid (y2,m2,d2) implies ord1 < ord2; with
+    totality of the lexicographic order and injectivity this is the instance form used by the engine"""
+    y1, m1, d1, y2, m2, d2 = z3.Ints('ol_y1 ol_m1 ol_d1 ol_y2 ol_m2 ol_d2')
+    lexlt = z3.Or(y1 < y2, z3.And(y1 == y2, m1 < m2), z3.And(y1 == y2, m1 == m2, d1 < d2))
+    return [valid_ymd(y1, m1, d1), valid_ymd(y2, m2, d2), lexlt], ymd_to_ord(y1, m1, d1) < ymd_to_ord(y2, m2, d2)
+
+
 def built_from_fields(o, y, m, d):
     """facts for an ordinal o == ord(y, m, d) built from valid fields: its decomposition is (y, m, d)"""
     return [year_of(o) == y, month_of(o) == m, day_of(o) == d]
